@@ -312,6 +312,37 @@ func (i *interpreter) mapKey(k value) value {
 	return k
 }
 
+// mapKeyIn resolves a symbolic string key against the (concrete) keys of m by
+// forking on equality with each of them; a key equal to none is replaced by a
+// fresh placeholder that is not in the map.
+func (i *interpreter) mapKeyIn(m value, k value) value {
+	ss, ok := k.(symstr)
+	if !ok {
+		return i.mapKey(k)
+	}
+	if s, ok := ss.concrete(); ok {
+		return s
+	}
+	mm, ok := m.(map[value]value)
+	if !ok {
+		panic(engineError{"symbolic string key into a non-builtin map"})
+	}
+	var keys []string
+	for ck := range mm {
+		if s, ok := ck.(string); ok && len(s) == len(ss.b) {
+			keys = append(keys, s)
+		}
+	}
+	sort.Strings(keys)
+	for _, ck := range keys {
+		if i.truth("mapkey", i.symstrBinop(token.EQL, ss, ck)) {
+			return ck
+		}
+	}
+	i.world.objID++
+	return fmt.Sprintf("\x00symkey-%d", i.world.objID)
+}
+
 func (i *interpreter) binopSym(op token.Token, t types.Type, x, y value) (value, bool) {
 	_, sx := x.(symv)
 	_, sy := y.(symv)
